@@ -185,6 +185,7 @@ def analyse(P, B):
     exec_enable, exec_special = None, []
     gate_setting = None
     uris_branch = False
+    exec_val_encoded = False
     for test, br in _flatten_chain(body[0]):
         guarded = False
         cmp_ = test
@@ -275,9 +276,16 @@ def analyse(P, B):
                         raise ProfileGenError("execute branch: unexpected body of an `option ==` test")
                     exec_special.append((opt, _const_str(c.args[0], "set_option")))
             src = ast.unparse(ast.Module(body=br, type_ignores=[]))
-            for needle in ("if ' ' in item", "item.partition(' ')", "val = val[1:-1]"):
+            for needle in ("if ' ' in item", "item.partition(' ')"):
                 if needle not in src:
                     raise ProfileGenError(f"execute branch: `{needle}` not found")
+            # fix 9ae0a64: the quoted part of a special item is handed to value_to_string as bytes (UTF-8, the inverse of
+            # parse_execute_list's decode).  Exactly one plain assignment to `val`, exactly this text; anything else is not modelled.
+            val_assigns = [ast.unparse(n) for n in ast.walk(ast.Module(body=br, type_ignores=[]))
+                           if isinstance(n, ast.Assign) and len(n.targets) == 1 and ast.unparse(n.targets[0]) == "val"]
+            if val_assigns != ["val = val[1:-1].encode()"]:
+                raise ProfileGenError(f"execute branch: the special value is not `val = val[1:-1].encode()`: {val_assigns!r}")
+            exec_val_encoded = True
     if exec_enable is None:
         raise ProfileGenError("execute branch not found")
     if gate_setting is None:
@@ -476,6 +484,7 @@ def analyse(P, B):
         "literalValues": literal_values,
         "strValuesEncoded": str_encoded,
         "urisBranch": uris_branch,
+        "executeValEncoded": exec_val_encoded,
     }
 
 
@@ -571,6 +580,9 @@ def render(t) -> tuple[str, list]:
     tables.append("urisBranch")
     out.append("/-- the SETTING_DOMAINS branch joins the non-None URIs and sets `uri` (as bytes) only when the result is non-empty -/")
     out.append(f"def urisBranch : Bool := {'true' if t['urisBranch'] else 'false'}\n")
+    tables.append("executeValEncoded")
+    out.append("/-- the execute branch hands the quoted part of `CreateThread \"…\"` to value_to_string as `val[1:-1].encode()` (bytes) -/")
+    out.append(f"def executeValEncoded : Bool := {'true' if t['executeValEncoded'] else 'false'}\n")
     out.append("end Gen.ProfileGen")
     return "\n".join(out) + "\n", tables
 
